@@ -53,7 +53,8 @@ structure Snap where
   rlock : Bool     -- somebody else's `.rlock` file exists
   temp : Bool      -- somebody else's `.temp` file exists
   ioFail : Bool    -- a create at this instant fails for a reason of its own
-  delay : Nat      -- a sleep that begins at this instant lasts 1 + delay
+  delay : Nat      -- the timer of a select that begins at this instant fires after `delay` instants (0 = retry delay 0)
+  timerWins : Bool -- when the context and the timer become ready at the same instant Go's select picks either: this one
   deriving Repr
 
 def Snap.has (s : Snap) : CF → Bool
@@ -155,6 +156,12 @@ def evalCond (T : Nat) (s : LSt) : Cond → Bool
   | .attemptOk => isOk s.last
   | .attemptHard => isHard s.last
 
+/-- `select { case <-ctx.Done(): …; case <-time.After(d): }` begun at instant `t`: the context is ready from
+    max T t on, the timer from t + d on.  The earlier one is taken; when both become ready at the same instant
+    (d = 0 with the context already over, or T = t + d) the choice is not determined — `timerWins` decides. -/
+def selectReturns (T t d : Nat) (timerWins : Bool) : Bool :=
+  decide (T ≤ t + d) && !(timerWins && (decide (T = t + d) || decide (d = 0)))
+
 /-- statements in source order; the context is over from instant `T` on -/
 def runStmts (env : Env) (T : Nat) (tr : List TStmt) : List RStmt → LSt → Flow
   | [], s => .cont s
@@ -165,8 +172,8 @@ def runStmts (env : Env) (T : Nat) (tr : List TStmt) : List RStmt → LSt → Fl
     if evalCond T s c then .ret r { s with t := s.t + 1 }
     else runStmts env T tr rest { s with t := s.t + 1 }
   | .selectCtxOrTimer r :: rest, s =>
-    if T ≤ s.t + (1 + (env s.t).delay) then .ret r { s with t := s.t + 1 }
-    else runStmts env T tr rest { s with t := s.t + (1 + (env s.t).delay) }
+    if selectReturns T s.t (env s.t).delay (env s.t).timerWins then .ret r { s with t := s.t + 1 }
+    else runStmts env T tr rest { s with t := s.t + (env s.t).delay + 1 }
 
 def runLoop (env : Env) (T : Nat) (tr : List TStmt) (body : List RStmt) : Nat → LSt → Option (Ret × LSt)
   | 0, _ => none
@@ -314,5 +321,61 @@ def wanted : List NStmt → Mine
   | [] => .none
   | .controlFile f _ :: rest => (wanted rest).set f true
   | _ :: rest => wanted rest
+
+/-! ### NewHandlerForCreate: no waiting — ONE attempt to take the lock, then the table's file is created -/
+
+inductive CStmt
+  /-- `if Exists(h.path) { return h, err }` -/
+  | existsReturn
+  /-- `if h.<f>File != nil { return nil, err }` -/
+  | heldGuard (f : CF)
+  /-- `cf, err := TryCreate<F>File(h.path); if err != nil { return h, [closeIsolatedHandler(h,] err[)] }` — one attempt -/
+  | tryDirect (f : CF) (release : Bool)
+  /-- `h.<f>File = cf` -/
+  | recordDirect (f : CF)
+  /-- `fp, err := file.Create(h.path); if err != nil { return h, [closeIsolatedHandler(h,] err[)] }` (O_EXCL) -/
+  | createData (release : Bool)
+  /-- `h.created = true` -/
+  | markCreated
+  /-- `return h, nil` -/
+  | returnOk
+  deriving DecidableEq, Repr
+
+structure CSt where
+  exist : Mine            -- control files of this process that exist
+  held : Mine             -- … that the handler knows
+  created : Bool          -- Handler.created
+  madeData : Bool         -- the table's file exists and THIS call created it
+  removedForeign : Bool   -- this call has removed a table file that somebody else created
+  deriving DecidableEq, Repr
+
+def CSt.init : CSt := ⟨.none, .none, false, false, false⟩
+
+/-- closeIsolatedHandler → closeWithErrors of a ForCreate handler: `if h.created && Exists(h.path) { os.Remove(h.path) }`,
+    then every control file the handler knows; `foreign` = a table file of somebody else is there -/
+def releaseC (foreign : Bool) (s : CSt) : CSt :=
+  { exist := s.exist.minus s.held, held := .none, created := s.created,
+    madeData := if s.created then false else s.madeData,
+    removedForeign := s.removedForeign || (s.created && !s.madeData && foreign) }
+
+/-- one call: `atCheck` / `atCreate` = somebody else's table file is there at the existence check / at the create,
+    `tryOut` = how the one attempt ends, `ioFail` = the create fails for a reason of its own.
+    `last` = the control file the attempt returned.  Result: (returned an error, state) -/
+def runCreate (atCheck atCreate ioFail : Bool) (tryOut : TRes × Mine) : List CStmt → CSt → Option CF → Bool × CSt
+  | [], s, _ => (false, s)
+  | .existsReturn :: rest, s, l => if atCheck then (true, s) else runCreate atCheck atCreate ioFail tryOut rest s l
+  | .heldGuard f :: rest, s, l => if s.held.get f then (true, s) else runCreate atCheck atCreate ioFail tryOut rest s l
+  | .tryDirect _ rel :: rest, s, _ =>
+    let s1 := { s with exist := s.exist.union tryOut.2 }
+    match tryOut.1 with
+    | .ok g => runCreate atCheck atCreate ioFail tryOut rest s1 (some g)
+    | _ => (true, if rel then releaseC atCreate s1 else s1)
+  | .recordDirect f :: rest, s, l =>
+    runCreate atCheck atCreate ioFail tryOut rest { s with held := if l = some f then s.held.set f true else s.held } l
+  | .createData rel :: rest, s, l =>
+    if atCreate || ioFail then (true, if rel then releaseC atCreate s else s)
+    else runCreate atCheck atCreate ioFail tryOut rest { s with madeData := true } l
+  | .markCreated :: rest, s, l => runCreate atCheck atCreate ioFail tryOut rest { s with created := true } l
+  | .returnOk :: _, s, _ => (false, s)
 
 end Csvq.Retry
